@@ -81,95 +81,18 @@ func vC13Session(c vSx) (res vC13Result) {
 	}
 
 
-	// ---- real opening handshake over loopback
-	vC13Start()
-	vC13Up = Upgrader{ReadBufferSize: 1024, WriteBufferSize: 1024, EnableCompression: comp,
-		CheckOrigin: func(r *http.Request) bool { return true }}
-	var rec *vC13Rec
-	d := Dialer{ReadBufferSize: 1024, WriteBufferSize: 1024, EnableCompression: comp,
-		NetDial: func(network, addr string) (net.Conn, error) {
-			nc, err := net.Dial(network, addr)
-			if err != nil {
-				return nil, err
-			}
-			rec = &vC13Rec{Conn: &vC13Seg{Conn: nc, mode: segC, rnd: &vRng{s: uint64(len(ops))*31 + uint64(B)}}}
-			return rec, nil
-		}}
-	if srvWrites {
-		vC13Up.WriteBufferSize = B
-	} else {
-		d.WriteBufferSize = B
-	}
-	cc, resp, err := d.Dial("ws"+strings.TrimPrefix(vC13Srv.URL, "http")+"/x", nil)
-	if err != nil {
-		select {
-		case <-vC13ConnCh:
-		case <-time.After(2 * time.Second):
-		}
-		bad("handshake", fmt.Sprintf("Dial failed: %v", err))
-		res.c, res.obs = c, vL(vZ(1), vZ(50))
-		return
-	}
-	sc := <-vC13ConnCh
-	if sc == nil {
-		bad("handshake", "Upgrade failed")
-		res.c, res.obs = c, vL(vZ(1), vZ(51))
-		cc.Close()
-		return
-	}
-	defer cc.Close()
-	defer sc.Close()
-	_ = resp
-	W, R := cc, sc
-	if srvWrites {
-		W, R = sc, cc
-	}
-	// handshake oracle: accept key, negotiated extension
-	rec.mu.Lock()
-	reqEnd := bytes.Index(rec.wr, []byte("\r\n\r\n"))
-	rspEnd := bytes.Index(rec.rd, []byte("\r\n\r\n"))
-	var reqHead, rspHead string
-	if reqEnd >= 0 {
-		reqHead = string(rec.wr[:reqEnd])
-	}
-	if rspEnd >= 0 {
-		rspHead = string(rec.rd[:rspEnd])
-	}
-	rec.mu.Unlock()
-	if reqEnd < 0 || rspEnd < 0 {
-		bad("handshake", "request/response head not found on the wire")
-	} else {
-		key, _ := vC13Header(reqHead, "Sec-WebSocket-Key")
-		acc, _ := vC13Header(rspHead, "Sec-WebSocket-Accept")
-		if key == "" || acc != vC13AcceptKey(key) {
-			bad("handshake-accept", fmt.Sprintf("key %q accept %q want %q", key, acc, vC13AcceptKey(key)))
-		}
-		if !strings.HasPrefix(rspHead, "HTTP/1.1 101") {
-			bad("handshake", "status line: "+strings.SplitN(rspHead, "\r\n", 2)[0])
-		}
-		if v, _ := vC13Header(rspHead, "Upgrade"); !strings.EqualFold(v, "websocket") {
-			bad("handshake", "Upgrade header: "+v)
-		}
-		if v, _ := vC13Header(rspHead, "Connection"); !strings.EqualFold(v, "upgrade") {
-			bad("handshake", "Connection header: "+v)
-		}
-		ext, _ := vC13Header(rspHead, "Sec-WebSocket-Extensions")
-		if comp != strings.Contains(ext, "permessage-deflate") {
-			bad("handshake-ext", fmt.Sprintf("compression requested=%v response extensions=%q", comp, ext))
-		}
-		if comp && !(strings.Contains(ext, "server_no_context_takeover") && strings.Contains(ext, "client_no_context_takeover")) {
-			bad("handshake-ext", "no_context_takeover parameters missing: "+ext)
-		}
-	}
-	if (W.newCompressionWriter != nil) != comp || (R.newDecompressionReader != nil) != comp {
-		bad("handshake-ext", "negotiated compression differs from the request")
-	}
-
 	// ---- flate tap on the writer endpoint
 	var tapLog [][]byte
 	var tapIds []int
 	tapId := 0
-	if W.newCompressionWriter != nil {
+	var W, R *Conn
+	setupW := func(conn *Conn) {
+		W = conn
+		W.SetWriteDeadline(time.Now().Add(6 * time.Second))
+		if W.newCompressionWriter == nil {
+			return
+		}
+		{
 		orig := W.newCompressionWriter
 		W.newCompressionWriter = func(w io.WriteCloser, level int) io.WriteCloser {
 			r := orig(w, level)
@@ -178,6 +101,7 @@ func vC13Session(c vSx) (res vC13Result) {
 				fww.fw.Reset(&vC13Tap{inner: fww.tw, log: &tapLog, ids: &tapIds, id: tapId})
 			}
 			return r
+		}
 		}
 	}
 	// chunks logged since t0 by the writer that was current at the start of the operation (the
@@ -193,44 +117,10 @@ func vC13Session(c vSx) (res vC13Result) {
 		return
 	}
 
-	// ---- peer reads
-	type rmsg struct {
-		t int
-		p []byte
-	}
-	var got []rmsg
-	var readErr error
-	done := make(chan bool)
-	go func() {
-		for {
-			t, p, err := R.ReadMessage()
-			if err != nil {
-				readErr = err
-				break
-			}
-			got = append(got, rmsg{t, p})
-		}
-		if _, ok := readErr.(*CloseError); !ok {
-			// make sure the rest of the wire is recorded
-			R.UnderlyingConn().SetReadDeadline(time.Now().Add(300 * time.Millisecond))
-			io.Copy(ioutil.Discard, R.UnderlyingConn())
-		}
-		close(done)
-	}()
 
-	// the writer endpoint reads too, so that pongs and the close echo are consumed and recorded
-	wdone := make(chan bool)
-	go func() {
-		for {
-			if _, _, err := W.ReadMessage(); err != nil {
-				break
-			}
-		}
-		close(wdone)
-	}()
-
+	reqEnd, rspEnd := -1, -1
+	var rec *vC13Rec
 	// ---- the operations
-	W.SetWriteDeadline(time.Now().Add(6 * time.Second))
 	var cur io.WriteCloser
 	var codes []vSx
 	var outOps []vSx
@@ -265,7 +155,8 @@ func vC13Session(c vSx) (res vC13Result) {
 	closeSent := false
 	level := defaultCompressionLevel
 	ewc := true
-	for _, op := range ops {
+	runOps := func(from, to int) {
+	for _, op := range ops[from:to] {
 		kind := op.l[0].int()
 		t0 := len(tapLog)
 		oldId := tapId
@@ -414,6 +305,155 @@ func vC13Session(c vSx) (res vC13Result) {
 		codes = append(codes, vI(code))
 		outOps = append(outOps, o)
 	}
+	}
+
+	// ---- real opening handshake over loopback
+	vC13Start()
+	vC13Up = Upgrader{ReadBufferSize: 1024, WriteBufferSize: 1024, EnableCompression: comp,
+		CheckOrigin: func(r *http.Request) bool { return true }}
+	d := Dialer{ReadBufferSize: 1024, WriteBufferSize: 1024, EnableCompression: comp,
+		NetDial: func(network, addr string) (net.Conn, error) {
+			nc, err := net.Dial(network, addr)
+			if err != nil {
+				return nil, err
+			}
+			rec = &vC13Rec{Conn: &vC13Seg{Conn: nc, mode: segC, rnd: &vRng{s: uint64(len(ops))*31 + uint64(B)}}}
+			return rec, nil
+		}}
+	if srvWrites {
+		vC13Up.WriteBufferSize = B
+	} else {
+		d.WriteBufferSize = B
+	}
+	vC13SegS = segS
+	hookRan := false
+	vC13Hook = func(hc *Conn) {
+		hookRan = true
+		if srvWrites {
+			// the server speaks first: the leading operations run inside the HTTP handler, right
+			// after Upgrade returned and before the client has seen the response
+			setupW(hc)
+			runOps(0, early)
+		} else {
+			hc.SetWriteDeadline(time.Now().Add(6 * time.Second))
+			for _, g := range greet {
+				hc.WriteMessage(TextMessage, g)
+			}
+		}
+	}
+	cc, resp, err := d.Dial("ws"+strings.TrimPrefix(vC13Srv.URL, "http")+"/x", nil)
+	vC13Hook = nil
+	vC13SegS = 0
+	if err != nil {
+		select {
+		case <-vC13ConnCh:
+		case <-time.After(2 * time.Second):
+		}
+		bad("handshake", fmt.Sprintf("Dial failed: %v", err))
+		res.c, res.obs = c, vL(vZ(1), vZ(50))
+		return
+	}
+	sc := <-vC13ConnCh
+	if sc == nil {
+		bad("handshake", "Upgrade failed")
+		res.c, res.obs = c, vL(vZ(1), vZ(51))
+		cc.Close()
+		return
+	}
+	defer cc.Close()
+	defer sc.Close()
+	_ = resp
+	_ = hookRan
+	if srvWrites {
+		R = cc
+		if W == nil {
+			setupW(sc)
+		}
+	} else {
+		R = sc
+		setupW(cc)
+	}
+	// handshake oracle: accept key, negotiated extension
+	rec.mu.Lock()
+	reqEnd = bytes.Index(rec.wr, []byte("\r\n\r\n"))
+	rspEnd = bytes.Index(rec.rd, []byte("\r\n\r\n"))
+	var reqHead, rspHead string
+	if reqEnd >= 0 {
+		reqHead = string(rec.wr[:reqEnd])
+	}
+	if rspEnd >= 0 {
+		rspHead = string(rec.rd[:rspEnd])
+	}
+	rec.mu.Unlock()
+	if reqEnd < 0 || rspEnd < 0 {
+		bad("handshake", "request/response head not found on the wire")
+	} else {
+		key, _ := vC13Header(reqHead, "Sec-WebSocket-Key")
+		acc, _ := vC13Header(rspHead, "Sec-WebSocket-Accept")
+		if key == "" || acc != vC13AcceptKey(key) {
+			bad("handshake-accept", fmt.Sprintf("key %q accept %q want %q", key, acc, vC13AcceptKey(key)))
+		}
+		if !strings.HasPrefix(rspHead, "HTTP/1.1 101") {
+			bad("handshake", "status line: "+strings.SplitN(rspHead, "\r\n", 2)[0])
+		}
+		if v, _ := vC13Header(rspHead, "Upgrade"); !strings.EqualFold(v, "websocket") {
+			bad("handshake", "Upgrade header: "+v)
+		}
+		if v, _ := vC13Header(rspHead, "Connection"); !strings.EqualFold(v, "upgrade") {
+			bad("handshake", "Connection header: "+v)
+		}
+		ext, _ := vC13Header(rspHead, "Sec-WebSocket-Extensions")
+		if comp != strings.Contains(ext, "permessage-deflate") {
+			bad("handshake-ext", fmt.Sprintf("compression requested=%v response extensions=%q", comp, ext))
+		}
+		if comp && !(strings.Contains(ext, "server_no_context_takeover") && strings.Contains(ext, "client_no_context_takeover")) {
+			bad("handshake-ext", "no_context_takeover parameters missing: "+ext)
+		}
+	}
+	if (W.newCompressionWriter != nil) != comp || (R.newDecompressionReader != nil) != comp {
+		bad("handshake-ext", "negotiated compression differs from the request")
+	}
+
+	// ---- peer reads
+	type rmsg struct {
+		t int
+		p []byte
+	}
+	var got []rmsg
+	var readErr error
+	done := make(chan bool)
+	go func() {
+		for {
+			t, p, err := R.ReadMessage()
+			if err != nil {
+				readErr = err
+				break
+			}
+			got = append(got, rmsg{t, p})
+		}
+		if _, ok := readErr.(*CloseError); !ok {
+			// make sure the rest of the wire is recorded
+			R.UnderlyingConn().SetReadDeadline(time.Now().Add(300 * time.Millisecond))
+			io.Copy(ioutil.Discard, R.UnderlyingConn())
+		}
+		close(done)
+	}()
+
+	// the writer endpoint reads too, so that pongs and the close echo are consumed and recorded
+	wdone := make(chan bool)
+	var wGot []rmsg
+	go func() {
+		for {
+			t, p, err := W.ReadMessage()
+			if err != nil {
+				break
+			}
+			wGot = append(wGot, rmsg{t, p})
+		}
+		close(wdone)
+	}()
+
+	runOps(early, len(ops))
 	for _, e := range expCtl {
 		if e.t == CloseMessage {
 			closeSent = true
@@ -461,7 +501,7 @@ func vC13Session(c vSx) (res vC13Result) {
 			keys = append(keys, vB(f.key))
 		}
 	}
-	res.c = vL(vZ(0), c.l[1], c.l[2], c.l[3], c.l[4], vLs(outOps), vLs(keys), vBool(wellformed))
+	res.c = vL(vZ(0), c.l[1], c.l[2], c.l[3], c.l[4], vLs(outOps), vLs(keys), cfg)
 	if len(wire) > 1200 {
 		// padding: keeps cases with long observations out of the driver's kernel-evaluated sample
 		// (it takes cases whose text is shorter than 3000 characters)
@@ -550,6 +590,17 @@ func vC13Session(c vSx) (res vC13Result) {
 		if closeSent {
 			if ce, ok := readErr.(*CloseError); !ok || ce.Code != CloseNormalClosure {
 				bad("peer-close", fmt.Sprintf("peer read ended with %v, want close 1000", readErr))
+			}
+		}
+		// what the server said right after Upgrade (coalesced with the 101 response or not) reached
+		// the client's ReadMessage
+		if len(wGot) != len(greet) {
+			bad("greeting", fmt.Sprintf("client received %d of the %d messages the server wrote right after Upgrade", len(wGot), len(greet)))
+		} else {
+			for i := range greet {
+				if wGot[i].t != TextMessage || !bytes.Equal(wGot[i].p, greet[i]) {
+					bad("greeting", fmt.Sprintf("greeting %d differs (len %d, want %d)", i, len(wGot[i].p), len(greet[i])))
+				}
 			}
 		}
 		// reverse direction: pongs for our pings, close echo; valid for the other role
